@@ -87,6 +87,24 @@ Proof.
   split; [exact split_shape_not_atomic|exact first_touch_split_loses].
 Qed.
 
+(* round 4.  (i) An exporter may let its emitter goroutine read the metric only
+   under its own read lock: the pseudo-lock l_emit ("no emitter I started runs
+   unsupervised") is required at every release of the metric lock, is given up
+   at the spawn and while a received item is handled, and is regained only at
+   the receive loop - so every path from the spawn to the release runs that loop
+   to the channel's close; the seeded push writer that leaves the loop on a write
+   error without draining is flagged at the release.  (ii) Runtime.handles and the
+   handles' input channels are guarded by handleMu (send = read use, close /
+   replace = write): handing a line over on a snapshot taken before the unlock is
+   flagged.  Both by the verified lockset checker, so C11_lockset_sound and
+   C11_discipline_sound cover them. *)
+Example C11_emitter_and_handles_shapes :
+  violations mtail_spec exporter_drained_shape = [] /\
+  violations mtail_spec exporter_undrained_shape = [5] /\
+  violations mtail_spec lineloop_shape = [] /\
+  violations mtail_spec lineloop_snapshot_shape = [6].
+Proof. vm_compute. repeat split; reflexivity. Qed.
+
 (* indivisible atomic adds on one word: every interleaving ends at the sum *)
 Theorem C11_no_lost_increment :
   forall (ds sched : list Z) (v0 : Z), Permutation ds sched ->
